@@ -222,6 +222,10 @@ class GenericRun(ComputeRun):
                     code_g.teams = pres
                 return call(m._compute, pres, list(ranks) if ranks is not None else None)
             out = ctx.merged(one_path)
+            T.guard(out)
+            if out[0] == "split":
+                for (_c, o) in out[1]:
+                    T.guard(o)
             box.update(m=m, params=params, prior=prior, teams=ts, out=out, model_before=model_before, events=list(ctx.events))
         recs = explore(self.ctx, run)
         if len(recs) != 1:
